@@ -324,7 +324,7 @@ def run_check(prop, tier, seed, n=None, jobs=None, budget_s=None, verbose=False)
 
     # 1. replays of open known findings of this property (always executed)
     for kf in known:
-        if kf.get('status') == 'open' and prop in kf.get('properties', [kf.get('property')]) and kf.get('replay'):
+        if kf.get('status') == 'open' and prop in kf.get('replay_for', [kf.get('property')]) and kf.get('replay'):
             rp = os.path.join(VERIF, kf['replay'])
             try:
                 with open(rp) as f:
